@@ -486,7 +486,8 @@ func init() {
 					}
 					units := []string{"year", "years", "month", "months", "week", "weeks", "day", "days", "hour", "hours", "minute", "minutes", "second", "seconds", "millisecond", "milliseconds", "'mg'", "'kg/m2'", "'1'", "'a'", "'wk'", "'[in_i]'"}
 					for _, u := range units {
-						for _, n := range []string{"5", "1.50", "0"} {
+						// the value of a quantity is a Decimal: a whole number beyond the Integer range is as good as any other
+						for _, n := range []string{"5", "1.50", "0", "2147483647", "2147483648", "3000000000", "123456789012345678901234567890", "007"} {
 							lit := n + " " + u
 							res := lib.Run(lit, nil, nil)
 							r.Eval()
@@ -645,6 +646,11 @@ func c15ExtraElements() []lib.Val {
 
 // c15ProtoRoundTrip: system.From(element) denotes the element's value; System -> proto -> System is the identity.
 func c15ProtoRoundTrip(r *core.Rec, e lib.Val) {
+	// the repository's renderers and jsonformat agree on the element as given (whatever zone it was read in)
+	if m, ok := e.V.(proto.Message); ok {
+		c15RenderAgrees(r, "element|"+e.Kind+"|"+e.Class, m, core.W{"element": e.ID})
+		r.Eval()
+	}
 	msg, ok := e.V.(proto.Message)
 	if !ok || e.RKind == "complex" {
 		return
